@@ -249,11 +249,20 @@ func (stream *DataStreamReader) Next() (res *Record, offset uint32, sizeBroken u
 	wrec.rec.Key = make([]byte, wrec.ksz)
 	if _, err = io.ReadFull(stream.rbuf, wrec.rec.Key); err != nil {
 		logger.Errorf(err.Error())
+		if err == io.EOF || err == io.ErrUnexpectedEOF {
+			// the sizes in the header reach beyond the end of the file: a damaged
+			// header (or a torn tail), not an I/O error; resynchronise like for
+			// any other damage instead of giving up on the whole file
+			return stream.nextValid()
+		}
 		return
 	}
 	wrec.rec.Payload.Body = stream.maxBodyBuf[:wrec.vsz]
 	if _, err = io.ReadFull(stream.rbuf, wrec.rec.Payload.Body); err != nil {
 		logger.Errorf(err.Error())
+		if err == io.EOF || err == io.ErrUnexpectedEOF {
+			return stream.nextValid()
+		}
 		return
 	}
 	recsizereal, recsize := wrec.rec.Sizes()
